@@ -308,6 +308,8 @@ class ShutScen:
         self.loop = loop
         self.problems = []
         self.parked = {}        # (conn, n) -> future
+        self.reading = set()
+        self.all_sent_at = {}
         self.entered = []       # (tick, conn, path) of every handler entry
         self.finished = []      # (conn, path, how)
         self.tick = 0
@@ -372,6 +374,12 @@ class ShutScen:
                 await resp.write_eof()
                 self.finished.append((ci, path, "returned"))
                 return resp
+            elif beh == "read":
+                # the handler needs the whole request body
+                self.reading.add((ci, path))
+                body = await request.read()
+                self.finished.append((ci, path, "returned"))
+                return web.Response(text=f"read {len(body)}")
             elif beh == "shielded":
                 fut = self.loop.create_future()
                 self.parked[(ci, path)] = (fut, "forever")
@@ -401,6 +409,8 @@ class ShutScen:
                 self.late.add((ci, path))
         c["ct"].write(data)
         c["st"].deliver()
+        if not c["script"]:
+            self.all_sent_at[ci] = self.loop.time()
 
     def menu(self):
         m = []
@@ -496,6 +506,10 @@ class ShutScen:
                 ent = next((t for (t, cc, pp) in self.entered if (cc, pp) == key), None)
                 beh = self.parked.get(key, (None, "fast"))[1]
                 released = key in self.parked and self.parked[key][0].done() and not self.parked[key][0].cancelled()
+                if key in self.reading and ci in self.all_sent_at and self.t_called is not None and self.all_sent_at[ci] < self.t_called + TIMEOUT - 1e-9 \
+                        and "drop" not in self.case.get("faults", ()):
+                    self.P("uploading-handler-cancelled", f"handler {path} on connection {ci} was waiting for the rest of its request body, which the client sent "
+                           f"{self.all_sent_at[ci] - self.t_called:g}s after the shutdown began (timeout {TIMEOUT:g}s), but it never got it and was cancelled")
                 if released and "drop" not in self.case.get("faults", ()):
                     self.P("finishing-handler-cancelled", f"handler {path} on connection {ci} was released by the application in time but got cancelled")
         alive = [(ci, p) for (ci, p), (f, b) in self.parked.items() if not f.done()]
@@ -535,6 +549,7 @@ def shut_cases(quick):
     add("stream+idle", [[b"GET /0.stream HTTP/1.1\r\nHost: a\r\n\r\n"], [req(0)]])
     add("shielded", [[b"GET /0.shielded HTTP/1.1\r\nHost: a\r\n\r\n"], [req(0)]])
     add("post-body-pending", [[b"POST /0 HTTP/1.1\r\nHost: a\r\nContent-Length: 4\r\n\r\nbo", b"dy"], [req(0)]])
+    add("post-read-body-pending", [[b"POST /0.read HTTP/1.1\r\nHost: a\r\nContent-Length: 4\r\n\r\nbo", b"dy"], [req(0)]])
     add("three", [[req(0)], [b"GET /0.park HTTP/1.1\r\nHost: a\r\n\r\n"], [b"GET /0.forever HTTP/1.1\r\nHost: a\r\n\r\n"]])
     add("running+drop", [[b"GET /0.forever HTTP/1.1\r\nHost: a\r\n\r\n"], [b"GET /0.park HTTP/1.1\r\nHost: a\r\n\r\n"]], ["drop"])
     add("untouched", [[], [req(0)]])
